@@ -100,7 +100,9 @@ enum Step {
     Update,
 }
 
-const WORDS: [&str; 3] = ["as", ":er", "aser"];
+/// (the last three are only typed in the live-fault part: variants of the words the user's auto-correct file has entries for -
+/// other letter case, wrapped in punctuation, suffixed - whose lists may depend on those entries in less direct ways)
+const WORDS: [&str; 6] = ["as", ":er", "aser", "As", "(as)", "Aser."];
 
 struct Run {
     rends: Vec<Rend>,
@@ -485,11 +487,19 @@ pub fn run(report: &Report, thorough: bool) -> Evidence {
                             failed = true;
                             break;
                         }
+                        // the words (and their variants) are typed under every intermediate state of the file as well, so that
+                        // whatever the context memoises about them meets the next state of the file
+                        if let Err((e, f)) = run_session(&mut live, &[Step::Type(0), Step::Type(2), Step::Type(3), Step::Type(4), Step::Type(5)]) {
+                            evs.extend(e);
+                            report.add(fail_violation("C10", &f, &o, &evs).feat("fault", "live auto-correct file changes".to_string()));
+                            failed = true;
+                            break;
+                        }
                     }
                     if failed {
                         continue;
                     }
-                    let got = run_session(&mut live, &[Step::Type(0), Step::Type(2)]);
+                    let got = run_session(&mut live, &[Step::Type(0), Step::Type(2), Step::Type(3), Step::Type(4), Step::Type(5)]);
                     let mut fresh = match Ctx::new(&o) {
                         Ok(c) => c,
                         Err(p) => {
@@ -498,7 +508,7 @@ pub fn run(report: &Report, thorough: bool) -> Evidence {
                         }
                     };
                     fresh.with_pre = false;
-                    let exp = run_session(&mut fresh, &[Step::Type(0), Step::Type(2)]);
+                    let exp = run_session(&mut fresh, &[Step::Type(0), Step::Type(2), Step::Type(3), Step::Type(4), Step::Type(5)]);
                     match (got, exp) {
                         (Ok(g), Ok(x)) => {
                             if g.rends != x.rends {
